@@ -188,7 +188,9 @@ func (t *gtracer) CaptureState(env *gvm.EVM, pc uint64, opc gvm.OpCode, gas, cos
 				} else {
 					inOff, inSize = stack[len(stack)-3], stack[len(stack)-4]
 				}
-				f.prePend = true
+				// a call that fails for lack of balance or depth is not a gas matter
+				short := (op == opCALL || op == opCALLCODE) && env.StateDB.GetBalance(contract.Address()).Cmp(stack[len(stack)-3]) < 0
+				f.prePend = !short && depth <= 1024
 				f.preAddr = to
 				if inSize.Sign() > 0 && inSize.IsInt64() && inOff.IsInt64() {
 					f.preInput = memory.GetCopy(inOff.Int64(), inSize.Int64())
